@@ -425,6 +425,12 @@ def build(seed, tier, focus='all'):
         d["root"] = keep
     # quick tier: element-level roots get 2 attributes x 2 items, except the first two per trait-independent
     # "deep" roots which keep 3 x 3 over a 3-letter alphabet
+    if tier != "quick" and focus == "enum":
+        # the attribute walk of element-level roots is the `element` focus's business (three items x two attributes over
+        # eight letters is 40 000 states per root); here they keep the quick tier's two items
+        for d in c.decls:
+            if d["root"] and d["trait"] != "FromMeta":
+                d["max_items"] = min(d["max_items"], 2)
     if tier == "quick":
         deep = 0
         for d in c.decls:
